@@ -37,7 +37,8 @@ func zzCKERef(data []byte, kx types.KeyExchangeAlgorithm) (fits bool, idOff, idL
 			return false, 0, 0, 0, 0
 		}
 		pkLen = int(data[off])
-		if pkLen > n-off-1 {
+		// RFC 8422 section 5.4: opaque point <1..2^8-1> — an empty point is malformed
+		if pkLen == 0 || pkLen > n-off-1 {
 			return false, 0, 0, 0, 0
 		}
 		pkOff = off + 1
@@ -163,8 +164,8 @@ func zzCKERoundTrip() {
 	zzsymAssert(zzsymEqBytes(raw, want), "ref_equal/CKE_encoding_layout")
 	g := &MessageClientKeyExchange{KeyExchangeAlgorithm: kx}
 	uerr := g.Unmarshal(raw)
-	if len(raw) < 2 {
-		// the single byte 00 (empty ECDHE point): not a valid RFC 8422 point, pion refuses it
+	if len(raw) < 2 || (kx.Has(types.KeyExchangeAlgorithmEcdhe) && len(v.PublicKey) == 0) {
+		// an empty ECDHE point (RFC 8422: opaque point <1..2^8-1>) is outside the documented validity predicate: pion refuses it
 		zzsymAssert(uerr != nil, "rt/CKE_empty_point_refused")
 		zzsymCover("cke_rt_empty_refused")
 		return
